@@ -123,10 +123,6 @@ class ExperimentLexer(Lexer):
     def ignore_newline(self, t):
         self.lineno += t.value.count("\n")
 
-    def error(self, t):
-        print("Illegal character '%s'" % t.value[0])
-        self.index += 1
-
 
 class BlockComment(Lexer):
     """Helper state that deals with C style opening
